@@ -4,7 +4,7 @@
 set -e
 cd "$(dirname "$0")/.."
 export GOFLAGS=-mod=mod GOPROXY=off GOSUMDB=off GOTOOLCHAIN=local CGO_ENABLED=0
-mkdir -p build/bin evidence replays
+mkdir -p build/bin evidence replays coq/theories/Gen
 cp /repo/go.sum harness/go.sum
 (cd harness && go build -tags verif -o ../build/bin/ ./cmd/...)
 build/bin/extract -repo /repo -cfg harness/extract.d -out coq/theories/Gen -report build/extract_report.json
